@@ -67,6 +67,12 @@ func knownCases() map[string]interface{} {
 	bad.Op = "Q"
 	bad.Note = "unknown-field \"zzz\" beneath the empty list z"
 	out["KF-C10-lazy-validation"] = &c10Case{Case: bad, Base: base, Defect: Defect{Kind: "unknown-field", Name: "zzz", Key: "dfct", Con: "T0", ConKind: "object", Depth: 2}}
+	// parse error right after a token that ends a line
+	c = smallWorld("R")
+	c.Doc = &hx.Doc{Ops: []*hx.Op{{Type: "query", Name: "Q", Sels: []*hx.Sel{{Kind: "field", Name: "d", Sels: []*hx.Sel{{Kind: "field", Name: "a"}}}}}}}
+	c.Doc.Number()
+	c.Op = "Q"
+	out["KF-C07-lookahead-position"] = &c07Case{Case: c, Mode: "malformed", Mutated: "query Q {}\n __typename\n}\n"}
 	return out
 }
 
